@@ -296,7 +296,9 @@ def places(chk):
 
 
 WALK_SEGDIR = {"plain": "p{k}", "deep": "d{k}/x/y/z", "hidden_dir": ".h{k}", "tools_typeshare": "tt{k}/tools/typeshare", "tools_other": "to{k}/tools/other",
-               "other_typeshare": "ot{k}/other/typeshare", "dotignore": "ign{k}", "gitignore": "gi{k}", "link_dir": "lnk{k}", "dir_named_rs": "dn{k}/src/inner.rs"}
+               "other_typeshare": "ot{k}/other/typeshare", "dotignore": "ign{k}", "gitignore": "gi{k}", "link_dir": "lnk{k}", "dir_named_rs": "dn{k}/src/inner.rs",
+               "named_target": "nt{k}/target", "named_target_deep": "ntd{k}/src/target/triple", "named_node_modules": "nn{k}/node_modules/pkg", "named_vendor": "nv{k}/vendor",
+               "named_build": "nb{k}/build"}
 WALK_FNAME = {"plain": "f.rs", "hidden_file": ".f.rs", "upper_ext": "F.RS", "bak": "f.rs.bak", "no_ext": "f", "link_file": "f.rs"}
 
 
